@@ -126,10 +126,23 @@ func runC13(r *Result, d *drv.Driver, tier string, seed int64, replay string) {
 	var lines []string
 	reals := make([]string, len(cases))
 	writtens := make([]int, len(cases))
+	// sentinel: a good value whose bytes are taken before anything is rejected; after every rejected value it is encoded
+	// again — whatever the failed Encode had produced must not surface later either
+	sentinel := kmip.Request{Header: kmip.RequestHeader{Version: kmip.ProtocolVersion{Major: 1, Minor: 4}, BatchCount: 1},
+		BatchItems: []kmip.RequestBatchItem{{Operation: kmip.OPERATION_GET, RequestPayload: kmip.GetRequest{UniqueIdentifier: "49a1ca88-6bea-4fb2-b450-7e58802c3038"}}}}
+	sentinelRef, _, _ := realEncode(sentinel)
+	leaks := 0
 	for i, c := range cases {
 		out, written, perr := realEncode(c)
 		reals[i] = out
 		writtens[i] = len(written)
+		if out == "err" {
+			if again, _, _ := realEncode(sentinel); again != sentinelRef && leaks < 3 {
+				leaks++
+				r.find(Finding{Kind: "violation", What: "output of a rejected value surfaced in the next Encode (a failed Encode must leave nothing behind)",
+					Input: map[string]string{"rejected": render.Top(c), "go": fmt.Sprintf("%T", c), "then": "Get request"}, Expect: sentinelRef, Actual: again})
+			}
+		}
 		if perr != "" {
 			reals[i] = "panic"
 			r.find(Finding{Kind: "violation", What: "Encode panicked", Input: map[string]string{"value": render.Top(c), "go": fmt.Sprintf("%T", c)}, Expect: "complete message or error", Actual: "panic: " + perr})
